@@ -25,6 +25,8 @@ pub const C18: u32 = 1 << 18; // sequential half: a state is never modified by b
 pub const C19: u32 = 1 << 19;
 /// C08(d) / C15 parse link on turn-start states (expensive: regex compile per parse)
 pub const PARSE_LINK: u32 = 1 << 24;
+/// the same link, evaluated on the root of each exploration only
+pub const PARSE_LINK_ROOT: u32 = 1 << 25;
 
 pub fn check_bit(id: &str) -> u32 {
     match id {
@@ -1006,7 +1008,7 @@ pub fn turn_start_oracles(ctx: &mut Ctx, node: &Node, via: Option<&Action>) {
             }
         }
     }
-    if ctx.on(PARSE_LINK) {
+    if ctx.on(PARSE_LINK) || (ctx.on(PARSE_LINK_ROOT) && via.is_none()) {
         parse_link(ctx, node, via);
     }
 }
